@@ -589,6 +589,9 @@ func genRetry(ctx *Ctx, c04 bool) {
 	saturationPhase(ctx, n)
 	idleClosePhase(ctx, n)
 	sendFailedPhase(ctx)
+	if c04 {
+		frontPhase(ctx)
+	}
 	// graph requests with the idempotent-graph option are exercised in the thorough tier by a second proxy
 	if ctx.Thorough {
 		e2, err := newRetryEnvGraph(ctx, n)
